@@ -72,7 +72,8 @@ func (inc *Inc) SubmitHTTP(posted, full [][]byte, endpoint string, low bool) *Su
 		w.mu.Lock()
 		defer w.mu.Unlock()
 		s.Done = true
-		r := &Raw{Ev: "Outcome", Inst: inc.Name, Gen: inc.Gen, Sub: s.ID, Entry: e, Source: s.Source}
+		r := &Raw{Ev: "Outcome", Inst: inc.Name, Gen: inc.Gen, Sub: s.ID, Entry: e, Source: s.Source,
+			HTTP: rec.Code, RetryAft: rec.Header().Get("Retry-After") != ""}
 		if rec.Code != 200 {
 			s.Res = "err"
 			switch rec.Code {
